@@ -34,6 +34,28 @@ fn enc_obs(out: &mut String, m: &DiameterMessage) {
         } else {
             out.push_str("ERR");
         }
+        return;
+    }
+    // ... and whatever portions the writer takes them in: a sink that accepts one octet per write() call
+    // (std::io::Write allows short writes; write_all exists to deal with them)
+    let mut w = OneOctet(Vec::new());
+    let third = m.encode_to(&mut w).is_ok();
+    if third != first || (first && w.0 != buf) {
+        let _ = write!(out, " ENC2DIFF one-octet-writer:{}:{}", third as u8, w.0.len());
+    }
+}
+
+struct OneOctet(Vec<u8>);
+impl std::io::Write for OneOctet {
+    fn write(&mut self, b: &[u8]) -> std::io::Result<usize> {
+        if b.is_empty() {
+            return Ok(0);
+        }
+        self.0.push(b[0]);
+        Ok(1)
+    }
+    fn flush(&mut self) -> std::io::Result<()> {
+        Ok(())
     }
 }
 
